@@ -117,6 +117,13 @@ def run_case(seed):
     count(f"levels={pf.nlevels}")
     for lk in pf.meta['layouts']:
         count(f"layout={lk}")
+    # the hypothesis of theorem C05_tool on the plotfile, evaluated by the extracted goodb (GoodB.goodb_sound)
+    stg, gb = model.call('goodb', pf_sx)
+    count(f"hypothesis 'good' of the tool theorem holds={stg == 'ok' and gb == 1}")
+    if not (stg == 'ok' and gb == 1):
+        out['disagreements'].append(dict(seed=seed, kind='hypothesis', what="the generated plotfile does not satisfy 'good' (goodb = false): the instance "
+                                         "of theorem C05_tool compared below is not covered by the theorem", meta=pf.meta,
+                                         correspondence='Writers.GoodB.goodb'))
     finest = pf.nlevels - 1
     for k in range(4):
         vkind, variables = gen_vars(rng, keys)
@@ -221,6 +228,8 @@ def run(tier, seed):
                    not any(v[0].get('kind') in ('model-vs-impl', 'model-taste') for v in rep.violations))
     rep.obligation('correspondence: Abstract.pf_disk of the abstract plotfile = the directory on disk the implementation reads',
                    not any(v[0].get('kind') in ('encode', 'spec') for v in rep.violations))
+    rep.obligation("hypotheses of C05_tool on every generated plotfile: goodb = true (proved sound for 'good')",
+                   not any(v[0].get('kind') == 'hypothesis' for v in rep.violations))
     rep.obligation('theorem instance (C05_tool) on every case: colander (pf_disk pf) = pf_disk (colander_spec pf), evaluated by the extracted code',
                    not any(v[0].get('kind') == 'spec-vs-model' for v in rep.violations))
     return rep.finish(
